@@ -334,50 +334,17 @@ theorem async_last_issued_wins {ν : Type} (ue : Bool) (fs0 : FS ν) (ops : List
        | none => readKey ue fs0 k
        | some x => x.result) ∧
     (lockOf (execAll (issueAll ue (fresh fs0) ops).1 π) (destPath ue k)).refs = 0 := by
-  obtain ⟨h1, _, h3, h4, h5⟩ := issueAll_spec ue ops (fresh fs0)
+  obtain ⟨h1, _, h3, _, _⟩ := issueAll_spec ue ops (fresh fs0)
   have hl0 : ∀ d, lockOf (fresh fs0) d = ⟨0, 0⟩ := fun d => by simp [lockOf, fresh, Store.get]
-  have hperm : ∀ d, (onDest d π).Perm (onDest d (issueAll ue (fresh fs0) ops).2) := fun d => hπ.filter _
   have hlocks : LocksOk (issueAll ue (fresh fs0) ops).1 π := by
-    intro d; rw [h3 d, hl0 d, (hperm d).length_eq]; simp
+    intro d
+    have hperm : (onDest d π).Perm (onDest d (issueAll ue (fresh fs0) ops).2) := hπ.filter _
+    rw [h3 d, hl0 d, hperm.length_eq]; simp
   obtain ⟨hget, hrefs⟩ := execAll_reg π _ hlocks (destPath ue k) (dest_not_artifact hk)
   refine ⟨?_, hrefs⟩
   unfold readKey
   rw [hget, h3, hl0, h1]
-  simp only
-  cases hlast : (onDest (destPath ue k) (issueAll ue (fresh fs0) ops).2).getLast? with
-  | none =>
-    have hnil : onDest (destPath ue k) (issueAll ue (fresh fs0) ops).2 = [] := List.getLast?_eq_none_iff.mp hlast
-    have := hperm (destPath ue k)
-    rw [hnil] at this
-    rw [List.Perm.eq_nil this]; rfl
-  | some x =>
-    obtain ⟨pre, hpre⟩ := List.getLast?_eq_some_iff.mp hlast
-    have hpw : (onDest (destPath ue k) (issueAll ue (fresh fs0) ops).2).Pairwise (fun a b => a.version < b.version) :=
-      List.Pairwise.sublist List.filter_sublist h5
-    rw [hpre, List.pairwise_append] at hpw
-    have hmemP : ∀ y, y ∈ onDest (destPath ue k) π → y ∈ pre ∨ y = x := by
-      intro y hy
-      have := (hperm (destPath ue k)).mem_iff.mp hy
-      rw [hpre] at this
-      simpa using this
-    have hx : x ∈ onDest (destPath ue k) π := by
-      apply (hperm (destPath ue k)).mem_iff.mpr; rw [hpre]; simp
-    have hxP : x ∈ (issueAll ue (fresh fs0) ops).2 := by
-      have : x ∈ onDest (destPath ue k) (issueAll ue (fresh fs0) ops).2 := by rw [hpre]; simp
-      exact (List.mem_filter.mp this).1
-    have hpos : 0 < x.version := by
-      have := (h4 x hxP).1
-      have h1v : (fresh fs0).nextVersion = 1 := rfl
-      omega
-    rw [foldl_reg_max (onDest (destPath ue k) π) 0 _ x hx ?_ ?_ hpos]
-    · intro y hy
-      rcases hmemP y hy with h | h
-      · exact Nat.le_of_lt (hpw.2.2 y h x (by simp))
-      · rw [h]; exact Nat.le_refl _
-    · intro y hy hv
-      rcases hmemP y hy with h | h
-      · have := hpw.2.2 y h x (by simp); omega
-      · exact h
+  exact reg_perm_last ue fs0 ops π hπ (destPath ue k) _
 
 /-- non-vacuity: three operations on `k` (write 1, remove, write 3) and one on `k2`, bodies completing
     in the order 3rd, 4th, 1st, 2nd: `k` ends with 3 (the two older bodies are skipped as stale and
@@ -386,6 +353,84 @@ example : let t := issueAll true (fresh ([] : FS Nat)) [.write ("n", "", "k") 1,
     let fin := execAll t.1 (t.2.drop 2 ++ t.2.take 2)
     t.2.map (·.version) = [1, 2, 3, 4] ∧ (t.1.locks.get ("n", "[empty]", "k")) = some ⟨0, 3⟩ ∧
     fin.fs = [(("n", "[empty]", "k2"), .data 7), (("n", "[empty]", "k"), .data 3)] ∧ fin.locks = [] ∧ fin.tmpCounter = 3 := by decide
+
+/-- `async_any_interleaving` (ORDER UNDER CONCURRENCY, finer grain; NO TORN READ under concurrency).
+    The body of a write is really two steps: `prep` — create, fill and sync the operation's own tmp
+    file, OUTSIDE the per-path lock — and `commit` — the critical section of `execute_locked_write`
+    (version check, rename over the destination / unlink, version bookkeeping, `clean_locks`) plus the
+    removal of the tmp file of a stale write. Take ANY schedule `steps` of prep/commit steps of the
+    issued operations — preps of different operations arbitrarily early, late, interleaved with other
+    operations' commits, or missing (then commit runs the whole body) — in which every issued operation
+    is committed exactly once, in ANY order (`commitsOf steps` is a permutation of the issued list).
+    Then (1) for EVERY valid key the destination finally holds the result of the LAST ISSUED operation
+    on it and all lock references are released; and (2) at EVERY point of EVERY such schedule (any
+    `steps'` over the issued operations, complete or not) no valid key's file is ever half-written: a
+    concurrent reader sees, for each key, a completely written value or nothing (given that the
+    directory started that way). The critical sections being atomic (the RwLock) and `rename` being
+    atomic are the assumptions. -/
+theorem async_any_interleaving {ν : Type} (ue : Bool) (fs0 : FS ν) (ops : List (KvOp ν)) (steps : List (Step2 ν))
+    (hp : ∀ x ∈ pendsOf steps, x ∈ (issueAll ue (fresh fs0) ops).2)
+    (hc : (commitsOf steps).Perm (issueAll ue (fresh fs0) ops).2) :
+    (∀ k, validKey k = true →
+      readKey ue (run2 ⟨(issueAll ue (fresh fs0) ops).1, []⟩ steps).st.fs k =
+        (match (onDest (destPath ue k) (issueAll ue (fresh fs0) ops).2).getLast? with
+         | none => readKey ue fs0 k
+         | some x => x.result) ∧
+      (lockOf (run2 ⟨(issueAll ue (fresh fs0) ops).1, []⟩ steps).st (destPath ue k)).refs = 0) ∧
+    ((∀ k, validKey k = true → readKey ue fs0 k ≠ some .torn) →
+      ∀ steps' : List (Step2 ν), (∀ x ∈ pendsOf steps', x ∈ (issueAll ue (fresh fs0) ops).2) →
+        ∀ k, validKey k = true → readKey ue (run2 ⟨(issueAll ue (fresh fs0) ops).1, []⟩ steps').st.fs k ≠ some .torn) := by
+  obtain ⟨h1, _, h3, _, _⟩ := issueAll_spec ue ops (fresh fs0)
+  have hg := goodPends_issueAll ue fs0 ops
+  have hinv : Inv2 (issueAll ue (fresh fs0) ops).2 (⟨(issueAll ue (fresh fs0) ops).1, []⟩ : St2 ν) :=
+    ⟨fun e he => by simp at he, List.Pairwise.nil⟩
+  have hl0 : ∀ d, lockOf (fresh fs0) d = ⟨0, 0⟩ := fun d => by simp [lockOf, fresh, Store.get]
+  refine ⟨?_, ?_⟩
+  · intro k hk
+    have hlocks : LocksOk (issueAll ue (fresh fs0) ops).1 (commitsOf steps) := by
+      intro d
+      have hperm : (onDest d (commitsOf steps)).Perm (onDest d (issueAll ue (fresh fs0) ops).2) := hc.filter _
+      rw [h3 d, hl0 d, hperm.length_eq]; simp
+    obtain ⟨hget, hrefs⟩ := run2_reg hg steps _ hinv hp hlocks (destPath ue k) (dest_not_artifact hk)
+    refine ⟨?_, hrefs⟩
+    unfold readKey
+    rw [hget]
+    simp only [h3, hl0, h1]
+    exact reg_perm_last ue fs0 ops (commitsOf steps) hc (destPath ue k) _
+  · intro h0 steps' hp' k hk
+    exact run2_no_torn_key hg steps' _ hinv hp' (destPath ue k) (dest_not_artifact hk)
+      (by rw [h1]; exact h0 k hk)
+
+/-- non-vacuity: two writes to `k` (1 then 2) and a remove of `k2`; schedule: prep of the 2nd write, prep
+    of the 1st, commit of the 2nd, commit of the remove, commit of the 1st (stale: its tmp file is
+    unlinked): `k` holds 2, no tmp file is left, the tmp counter advanced twice -/
+example : let t := issueAll true (fresh ([(("n", "[empty]", "k2"), .data 5)] : FS Nat)) [.write ("n", "", "k") 1, .write ("n", "", "k") 2, .remove ("n", "", "k2") false]
+    let steps : List (Step2 Nat) := match t.2 with
+      | [a, b, c] => [.prep b, .prep a, .commit b, .commit c, .commit a]
+      | _ => []
+    (run2 ⟨t.1, []⟩ steps).st.fs = [(("n", "[empty]", "k"), .data 2)] ∧ (run2 ⟨t.1, []⟩ steps).st.locks = [] ∧
+    (run2 ⟨t.1, []⟩ steps).st.tmpCounter = 2 ∧ (run2 ⟨t.1, []⟩ steps).prepared.length = 0 ∧
+    (run2 ⟨t.1, []⟩ (steps.take 2)).st.fs.keys = [("n", "[empty]", "k.1.tmp"), ("n", "[empty]", "k.0.tmp"), ("n", "[empty]", "k2")] := by decide
+
+/-- `async_equals_sequential` (linearisation in ISSUE order). Whatever the completion order `π` of the
+    bodies (and whatever the prep/commit schedule `steps` committing every issued operation once), every
+    valid key ends up exactly as if the same calls had been made one after the other through the sync
+    API in the order they were ISSUED — the run `runSeq` of `fs_refines_map`, i.e. (for a directory
+    representing an abstract store) the abstract map `run s0 ops` of `store_is_map`. -/
+theorem async_equals_sequential {ν : Type} (ue : Bool) (fs0 : FS ν) (ops : List (KvOp ν))
+    (π : List (Pending ν)) (hπ : π.Perm (issueAll ue (fresh fs0) ops).2)
+    (steps : List (Step2 ν)) (hp : ∀ x ∈ pendsOf steps, x ∈ (issueAll ue (fresh fs0) ops).2)
+    (hc : (commitsOf steps).Perm (issueAll ue (fresh fs0) ops).2) (k : Key) (hk : validKey k = true) :
+    readKey ue (execAll (issueAll ue (fresh fs0) ops).1 π).fs k = readKey ue (runSeq ue (fresh fs0) ops).fs k ∧
+    readKey ue (run2 ⟨(issueAll ue (fresh fs0) ops).1, []⟩ steps).st.fs k = readKey ue (runSeq ue (fresh fs0) ops).fs k := by
+  have hseq := runSeq_last ue (destPath ue k) (dest_not_artifact hk) ops (fresh fs0) (fresh fs0) (quiescent_fresh fs0)
+  refine ⟨?_, ?_⟩
+  · rw [(async_last_issued_wins ue fs0 ops π hπ k hk).1]; unfold readKey; rw [hseq]; rfl
+  · rw [((async_any_interleaving ue fs0 ops steps hp hc).1 k hk).1]; unfold readKey; rw [hseq]; rfl
+
+/-- non-vacuity: the example of `async_last_issued_wins` run through the sync API gives the same files -/
+example : (runSeq true (fresh ([] : FS Nat)) [.write ("n", "", "k") 1, .remove ("n", "", "k") true, .write ("n", "", "k") 3, .write ("n", "", "k2") 7]).fs =
+    [(("n", "[empty]", "k2"), .data 7), (("n", "[empty]", "k"), .data 3)] := by decide
 
 /-! ## 8. several monitors, archiving, reading everything back -/
 
@@ -612,8 +657,42 @@ theorem cleanup_idempotent {St Upd : Type} (sc : Sched) (hok : ∀ i, sc.ok i = 
     to the clean-up of monitor "m" up to its stored id -/
 example := cleanup_idempotent (St := List Nat) (Upd := Nat) okSched (fun _ => rfl) (fun _ => rfl)
   { store := [(("monitor_updates", "m", "2"), .upd 2 20), (("monitor_updates", "m", "9"), .upd 9 90), (("monitors", "", "m"), .mon true "m" ⟨5, []⟩)] } "m" 5 true
-example : (delStale (St := List Nat) (Upd := Nat) "m" 5 ["2", "9"]
-    [(("monitor_updates", "m", "2"), .upd 2 20), (("monitor_updates", "m", "9"), .upd 9 90)]).keys = [("monitor_updates", "m", "9")] := by
-  decide
+/-- ... whose hypothesis holds there (a stale file 2 and a pending file 9 next to the monitor at id 5) -/
+example : (cleanupTo (St := List Nat) (Upd := Nat) okSched
+    { store := [(("monitor_updates", "m", "2"), .upd 2 20), (("monitor_updates", "m", "9"), .upd 9 90), (("monitors", "", "m"), .mon true "m" ⟨5, []⟩)] }
+    "m" 5 true).2 = true := by
+  have hn : ∀ nm ∈ [Nat.repr 2, Nat.repr 9], (nm.toNat?).isSome = true := by
+    intro nm h
+    simp only [List.mem_cons, List.not_mem_nil, or_false] at h
+    rcases h with rfl | rfl <;> rw [Nat.toNat?_repr] <;> rfl
+  exact (cleanupLoop_healthy okSched (fun _ => rfl) (fun _ => rfl) "m" 5 true [Nat.repr 2, Nat.repr 9] _ hn).1
+
+/-- `cleanup_all_idempotent`: the same for the user-facing `cleanup_stale_updates(lazy)` over ALL
+    monitors: on a store that answers every operation and on which removals land, after a successful
+    run every listed monitor is `Done` (its key decodes, every listed update name parses, every stale
+    one is gone), and a second run succeeds and leaves the store — the association list itself — unchanged. -/
+theorem cleanup_all_idempotent {St Upd : Type} (cfg : Cfg St Upd) (sc : Sched) (hok : ∀ i, sc.ok i = true)
+    (heff : ∀ i, sc.eff i = true) (w : World St Upd) (lazy : Bool) (h1 : (cleanupStale cfg sc lazy w).2 = true) :
+    (∀ nm ∈ w.store.names CHANNEL_MONITOR_PERSISTENCE_PRIMARY_NAMESPACE CHANNEL_MONITOR_PERSISTENCE_SECONDARY_NAMESPACE,
+       Done cfg nm (cleanupStale cfg sc lazy w).1.store) ∧
+    (cleanupStale cfg sc lazy (cleanupStale cfg sc lazy w).1).2 = true ∧
+    (cleanupStale cfg sc lazy (cleanupStale cfg sc lazy w).1).1.store = (cleanupStale cfg sc lazy w).1.store := by
+  have hl : ∀ (w0 : World St Upd), cleanupStale cfg sc lazy w0 =
+      cleanupStaleLoop cfg sc lazy (w0.store.names MONP MONS) (kList sc w0 MONP MONS).1 := by
+    intro w0
+    unfold cleanupStale
+    have : (kList sc w0 MONP MONS).2 = some (w0.store.names MONP MONS) := by simp [kList, hok]
+    simp only [this]
+  rw [hl w] at h1
+  obtain ⟨hsh, hdone⟩ := cleanupStaleLoop_done cfg sc hok heff lazy _ (kList sc w MONP MONS).1 h1
+  have hsh' : Shrink w.store (cleanupStale cfg sc lazy w).1.store := by rw [hl w]; exact hsh
+  have hdone' : ∀ nm ∈ w.store.names MONP MONS, Done cfg nm (cleanupStale cfg sc lazy w).1.store := by
+    rw [hl w]; exact hdone
+  refine ⟨hdone', ?_⟩
+  rw [hl (cleanupStale cfg sc lazy w).1]
+  exact cleanupStaleLoop_noop cfg sc hok heff lazy _ (kList sc (cleanupStale cfg sc lazy w).1 MONP MONS).1
+    (fun nm hnm => hdone' nm (hsh'.2.1 _ _ _ hnm))
+
+example := cleanup_all_idempotent (exCfg 2) okSched (fun _ => rfl) (fun _ => rfl) (runCalls (exCfg 2) okSched { store := [] } (exL1 ++ exL2)) true
 
 end Ldk.C19
